@@ -132,9 +132,14 @@ fn calc_max_day_cost_per_sec(all_deltas: &Vec<TxDelta>) -> MaxDayCosts {
 
     // Go through each day and populate the ACB for every seen security in each MaxSingleDayCosts
     let mut last_acbs = HashMap::<Security, GreaterEqualZeroDecimal>::new();
+    // Walk the securities in name order (not in the set's arbitrary order): each
+    // observe_new_cost adds to the day's total, and with ~28 significant digits
+    // those additions can round, so the order must be the same in every run.
+    let mut sorted_secs: Vec<&Security> = security_set.iter().collect();
+    sorted_secs.sort();
     for day in sorted_days {
         let max_costs = max_costs_by_day.get_mut(&day).unwrap();
-        for sec in &security_set {
+        for sec in sorted_secs.iter().map(|s| *s) {
             if let Some(closing_acb) =
                 day_closing_sec_costs.get(&(day, sec.clone()))
             {
